@@ -33,7 +33,9 @@ func VH_C12_updown_arrival() {
 	N := vParam("N")
 	lines := make([]updownLine, N)
 	for i := 0; i < N; i++ {
-		lines[i] = updownLine{id: "s" + vItoa(i), idx: i, snps: []string{}, ambs: []int{}}
+		// every record carries its own SNPs and ambiguity ranges, so that anything leaking from one
+		// record into another shows in the bytes written
+		lines[i] = updownLine{id: "s" + vItoa(i), idx: i, snps: []string{"A" + vItoa(i+1) + "C"}, snpCount: 1, ambs: []int{i + 10, i + 10, i + 20, i + 25}, ambCount: 7}
 	}
 	used := make([]bool, N)
 	order := make([]int, 0, N)
@@ -67,7 +69,7 @@ func VH_C12_updown_arrival() {
 	writeOutput(w, cW, cErr, cD2)
 	exp := "query,SNPs,ambiguities,SNPcount,ambcount\n"
 	for i := 0; i < N; i++ {
-		exp += "s" + vItoa(i) + ",,,0,0\n"
+		exp += "s" + vItoa(i) + ",A" + vItoa(i+1) + "C," + vItoa(i+10) + "|" + vItoa(i+20) + "-" + vItoa(i+25) + ",1,7\n"
 	}
 	vAssert("C12.updown.writer-restores-input-order", string(w.buf) == exp)
 }
